@@ -9,5 +9,5 @@ rmdir $W
 git -C /repo worktree add --detach $W HEAD >/dev/null 2>&1 || { echo "cannot create worktree"; exit 9; }
 # carry over uncommitted changes of /repo (normally none)
 ( cd $W && git apply "$D" ) || { echo "patch does not apply"; git -C /repo worktree remove --force $W; exit 9; }
-cd /verif && VERIF_REPO=$W VERIF_OUT=$O ./check "$P" 2>&1 | grep -v "^KNOWN-FINDING" | tail -${3:-8}
+cd ${VERIF_SNAP:-/verif} && VERIF_REPO=$W VERIF_OUT=$O ./check "$P" 2>&1 | grep -v "^KNOWN-FINDING" | tail -${3:-8}
 git -C /repo worktree remove --force $W; rm -rf $O
